@@ -18,9 +18,20 @@ func fingerprintsQuery(ctx *shared.PlannerContext, matchers ...*labels.Matcher) 
 		matcher := parser.LabelMatcher{Node: _matcher}
 		labelNames = append(labelNames, matcher.GetLabel())
 		ops = append(ops, matcher.GetOp())
-		values = append(values, matcher.GetVal())
+		values = append(values, matcherValue(_matcher))
 	}
 	plannerStreamSelect := logql_transpiler.NewStreamSelectPlanner(labelNames, ops, values)
 
 	return plannerStreamSelect.Process(ctx)
+}
+
+// matcherValue gives the value the label index is compared with. PromQL regular expressions
+// are fully anchored (labels.Matcher compiles "^(?:" + value + ")$"), while the shared stream
+// select planner renders match(val, pattern), which looks for the pattern anywhere in the
+// value: anchor the pattern here so that job=~"api" does not select job="api-server".
+func matcherValue(m *labels.Matcher) string {
+	if m.Type == labels.MatchRegexp || m.Type == labels.MatchNotRegexp {
+		return "^(?:" + m.Value + ")$"
+	}
+	return m.Value
 }
